@@ -54,6 +54,18 @@ fn main() {
         let toks: Vec<String> = line.split_whitespace().map(|s| s.to_string()).collect();
         if toks.is_empty() { continue; }
         let f = toks[0].clone();
+        if f == "CASETABLE" {
+            // std's own case mapping of every two-byte UTF-8 character that is not mapped to itself: cp:upper-hex:lower-hex;
+            let hx = |x: &str| x.bytes().map(|b| format!("{:02x}", b)).collect::<String>();
+            let mut out = String::new();
+            for cp in 0x80u32..0x800 {
+                let c = char::from_u32(cp).unwrap();
+                let u: String = c.to_uppercase().collect(); let l: String = c.to_lowercase().collect(); let s = c.to_string();
+                if u != s || l != s { out.push_str(&format!("{}:{}:{};", cp, hx(&u), hx(&l))); }
+            }
+            println!("{}", out);
+            continue;
+        }
         let a: Vec<String> = toks[1..].to_vec();
         let r = std::panic::catch_unwind(move || dispatch(&f, &a));
         match r {
@@ -233,6 +245,18 @@ class Scratch:
             self._bin[key] = path
         log('[scratch] replay binary (%s) built in %.1fs' % ('release' if key else 'dev', time.time() - t0))
         return path
+
+    def case_table(self):
+        """{codepoint: (uppercase bytes, lowercase bytes)} for the two-byte characters std does not map to themselves, from the native build"""
+        if getattr(self, '_case_table', None) is None:
+            line = self.native(False, [('CASETABLE', [])])[0]
+            t = {}
+            for ent in line.strip().split(';'):
+                if not ent: continue
+                cp, u, l = ent.split(':')
+                t[int(cp)] = (bytes.fromhex(u), bytes.fromhex(l))
+            self._case_table = t
+        return self._case_table
 
     def native(self, release, calls):
         """calls: list of (fn, [arg strings]) -> list of result lines"""
